@@ -40,7 +40,7 @@ struct loopctx {
 	int handled;
 };
 static struct loopctx L[2];
-static int cycles, with_sig, with_ino, sigflags[2];
+static int cycles, with_sig, with_ino, sigflags[2], emfile1;
 
 static void ev_cb(void *c) { ((struct loopctx *)c)->handled++; }
 static int raw_handled[2];
@@ -90,7 +90,22 @@ static void body(void *_c)
 		IV_EVENT_RAW_INIT(&c->raw);
 		c->raw.cookie = c;
 		c->raw.handler = raw_cb;
-		iv_event_raw_register(&c->raw);
+		if (emfile1 && c->id == 1 && k == 0) {
+			/* a transient descriptor shortage in this thread only: the registration fails cleanly or succeeds on another
+			 * transport; either way the other thread's objects must not notice */
+			env_fail_next_evfd_thread = sched_self();
+			env_fail_next_evfd_errno = EMFILE;
+			env_fail_evfd_sticky = 1;
+			if (iv_event_raw_register(&c->raw) != 0) {
+				mc_obs("T1:raw-register-EMFILE");
+				env_fail_next_evfd_errno = 0;
+				if (iv_event_raw_register(&c->raw) != 0)
+					mc_fail("try-failed", "iv_event_raw_register failed without any fault");
+			}
+			env_fail_next_evfd_errno = 0;
+		} else if (iv_event_raw_register(&c->raw) != 0) {
+			mc_fail("try-failed", "iv_event_raw_register failed without any fault");
+		}
 		if (with_sig) {
 			IV_SIGNAL_INIT(&c->sig);
 			c->sig.signum = SIGUSR1;
@@ -161,6 +176,7 @@ static void exec_one(void)
 		}
 	}
 	method = mc_choose(4, MC_CONFIG, "method");
+	emfile1 = mc_arg_int("emfile1", 0) ? mc_choose(2, MC_CONFIG, "T1-raw-register-hits-EMFILE") : 0;
 	{
 		static const int fl[3] = { 0, IV_SIGNAL_FLAG_THIS_THREAD, IV_SIGNAL_FLAG_EXCLUSIVE };
 		sigflags[0] = fl[mc_choose(3, MC_CONFIG, "sigflags0")];
